@@ -2,8 +2,12 @@
 
 package packet
 
+import "time"
+
 // No-op counterparts of the verification hooks (see verif_on.go); inlined away.
 
 func verifEmit(ev string, kv ...interface{}) {}
 
 func verifGate(name string) {}
+
+func verifTicker(t *time.Ticker) *time.Ticker { return t }
